@@ -90,7 +90,7 @@ structure Layout where
   an : List RecL
   au : List RecL
   ad : List RecL
-deriving Repr
+deriving Repr, DecidableEq
 
 def recSites (rs : List RecL) : List Site := rs.flatMap RecL.sites
 
@@ -218,13 +218,24 @@ def layoutB (m : Msg) : Option Layout :=
          else none)
     else none
 
-def ptrOkB (m : Msg) (sites : List Site) (σ : Site) : Bool :=
+/-- the pointer designates a label boundary of a stored name (one of the name sites `update_records` knows) -/
+def ptrTgtB (m : Msg) (sites : List Site) (σ : Site) : Bool :=
   let g := ptrAt m.recs σ.x
   decide (12 ≤ g) &&
   (match nameSiteB m.recs (m.recs.length + 1) (g - 12) with
    | some (x, e) => sites.any (fun τ => decide (τ.s ≤ g - 12) && decide (τ.x = x) && decide (τ.e = e))
-   | none => false) &&
+   | none => false)
+
+/-- the pointer does not designate an offset in a later section than its own -/
+def ptrSecB (m : Msg) (σ : Site) : Bool :=
+  let g := ptrAt m.recs σ.x
   decide (σ.x < m.ai → g - 12 < m.ai) && decide (σ.x < m.ui → g - 12 < m.ui) && decide (σ.x < m.di → g - 12 < m.di)
+
+def ptrOkB (m : Msg) (sites : List Site) (σ : Site) : Bool := ptrTgtB m sites σ && ptrSecB m σ
+
+/-- everything but the pointer conditions: the layout, names that resolve within the caps, a 4-octet id/flags field -/
+def layoutOkB (m : Msg) (L : Layout) : Bool :=
+  L.sites.all (fun σ => (composeName m.recs composeFuel σ.s [] 0 none).isOk) && decide (m.hdr.length = 4)
 
 def wfLayoutB (m : Msg) (L : Layout) : Bool :=
   L.sites.all (fun σ => (decide (σ.e ≠ σ.x + 2) || ptrOkB m L.sites σ) &&
